@@ -2,7 +2,12 @@
    parse_header (baize/utils.py), of Headers (baize/datastructures.py) and of the
    stream helpers parse_stream / parse_async_stream (baize/multipart_helper.py; the
    two copies are each compared against this one model).  Bytes and text are lists
-   of N (byte values, resp. code points). *)
+   of N (byte values, resp. code points).
+
+   The matchers are written with explicit equality tests ([starts_with] on constant
+   strings) instead of pattern matching on numerals: the same functions, in the form
+   that the proofs can take apart.  Fidelity is established by the correspondence
+   check, not by resemblance to the Python text. *)
 From Coq Require Import List NArith Bool Arith.
 From Baize Require Import Lib.Wire Lib.Order.
 Import ListNotations.
@@ -10,6 +15,14 @@ Import ListNotations.
 Definition bytes := list N.
 Definition CR : N := 13%N.
 Definition LF : N := 10%N.
+Definition DASH : N := 45%N.
+Definition SP : N := 32%N.
+Definition COLON : N := 58%N.
+Definition SEMI : N := 59%N.
+Definition EQUALS : N := 61%N.
+Definition DQUOTE : N := 34%N.
+Definition BSLASH : N := 92%N.
+Definition CRLF : bytes := [CR; LF].
 
 (* ---------- searching ---------- *)
 
@@ -24,14 +37,23 @@ Fixpoint starts_with (p s : bytes) : bool :=
 Fixpoint has_sub (needle s : bytes) : bool :=
   starts_with needle s || match s with [] => false | _ :: r => has_sub needle r end.
 
-(* (?:\r\n|\n|\r) at the front: length of the match, CRLF preferred *)
-Definition lb_len (s : bytes) : option nat :=
-  match s with
-  | 13%N :: 10%N :: _ => Some 2
-  | 10%N :: _ => Some 1
-  | 13%N :: _ => Some 1
-  | _ => None
+(* re.search with a pattern given as an anchored matcher: leftmost position at which
+   the matcher succeeds, with the matcher's result *)
+Fixpoint search {A : Type} (m : bytes -> option A) (s : bytes) (i : nat) : option (nat * A) :=
+  match m s with
+  | Some a => Some (i, a)
+  | None => match s with
+            | [] => None
+            | _ :: r => search m r (S i)
+            end
   end.
+
+(* (?:\r\n|\n|\r) at the front: length of the match, alternatives in the pattern's order *)
+Definition lb_len (s : bytes) : option nat :=
+  if starts_with [CR; LF] s then Some 2
+  else if starts_with [LF] s then Some 1
+  else if starts_with [CR] s then Some 1
+  else None.
 
 (* [^\S\n\r] in a bytes pattern: space, TAB, VT, FF *)
 Definition is_hws (c : N) : bool := N.eqb c 32 || N.eqb c 9 || N.eqb c 11 || N.eqb c 12.
@@ -45,20 +67,22 @@ Fixpoint skip_hws (s : bytes) : nat :=
 (* what follows "--boundary":  (--[^\S\n\r]*LB?|[^\S\n\r]*LB) ; returns the length
    matched and whether it is the closing delimiter *)
 Definition tail_match (s : bytes) : option (nat * bool) :=
-  match s with
-  | 45%N :: 45%N :: r =>
-      let h := skip_hws r in
-      Some (2 + h + match lb_len (skipn h r) with Some l => l | None => 0 end, true)
-  | _ =>
-      let h := skip_hws s in
-      match lb_len (skipn h s) with
-      | Some l => Some (h + l, false)
-      | None => None
-      end
-  end.
+  if starts_with [DASH; DASH] s then
+    let r := skipn 2 s in
+    let h := skip_hws r in
+    Some (2 + h + match lb_len (skipn h r) with Some l => l | None => 0 end, true)
+  else
+    let h := skip_hws s in
+    match lb_len (skipn h s) with
+    | Some l => Some (h + l, false)
+    | None => None
+    end.
 
-(* the delimiter pattern anchored at the front of [s]; [opt_lb] = the leading line
-   break is optional (preamble_re) *)
+(* "--" ++ boundary *)
+Definition dashes (b : bytes) : bytes := DASH :: DASH :: b.
+
+(* the delimiter pattern anchored at the front of [s]: LB (optional when [opt_lb]:
+   preamble_re), dd = "--boundary", tail.  Result: length matched, closing? *)
 Definition match_delim (opt_lb : bool) (dd s : bytes) : option (nat * bool) :=
   let try_at (l : nat) :=
     if starts_with dd (skipn l s) then
@@ -76,29 +100,24 @@ Definition match_delim (opt_lb : bool) (dd s : bytes) : option (nat * bool) :=
   | None => if opt_lb then try_at 0 else None
   end.
 
-(* re.search: leftmost position at which the pattern matches: (start, end, closing) *)
-Fixpoint search_delim (opt_lb : bool) (dd s : bytes) (i : nat) : option (nat * nat * bool) :=
-  match match_delim opt_lb dd s with
-  | Some (len, closing) => Some (i, i + len, closing)
-  | None => match s with
-            | [] => None
-            | _ :: r => search_delim opt_lb dd r (S i)
-            end
+(* pattern.search(buffer): (match.start(), match.end(), group 1 starts with "--") *)
+Definition search_delim (opt_lb : bool) (dd s : bytes) : option (nat * nat * bool) :=
+  match search (match_delim opt_lb dd) s 0 with
+  | Some (p, (len, closing)) => Some (p, p + len, closing)
+  | None => None
   end.
 
 (* BLANK_LINE_RE = (?:\r\n\r\n|\r\r|\n\n) *)
 Definition blank_len (s : bytes) : option nat :=
-  match s with
-  | 13%N :: 10%N :: 13%N :: 10%N :: _ => Some 4
-  | 13%N :: 13%N :: _ => Some 2
-  | 10%N :: 10%N :: _ => Some 2
-  | _ => None
-  end.
+  if starts_with [CR; LF; CR; LF] s then Some 4
+  else if starts_with [CR; CR] s then Some 2
+  else if starts_with [LF; LF] s then Some 2
+  else None.
 
-Fixpoint search_blank (s : bytes) (i : nat) : option (nat * nat) :=
-  match blank_len s with
-  | Some l => Some (i, i + l)
-  | None => match s with [] => None | _ :: r => search_blank r (S i) end
+Definition search_blank (s : bytes) : option (nat * nat) :=
+  match search blank_len s 0 with
+  | Some (p, l) => Some (p, p + l)
+  | None => None
   end.
 
 (* buffer.rindex(c, start), None when absent; [i] is the index of the head of [s] *)
@@ -123,14 +142,48 @@ Inductive data_result :=
 | More (data rest : bytes)                       (* Data(data, more_data=True) if data is non-empty, buffer := rest *)
 | EndPart (data rest : bytes) (closing : bool).  (* Data(data, more_data=False), buffer := rest *)
 
-Definition dashes (b : bytes) : bytes := 45%N :: 45%N :: b.
+(* what may follow "--boundary" in a delimiter line that is still incomplete when the buffer
+   ends: the first dash of the closing "--", or padding (horizontal white space) *)
+Definition pending_tail (s : bytes) : bool := bytes_eqb s [DASH] || forallb is_hws s.
 
+(* pending_boundary_re (a line break, "--boundary", then a single dash or padding, then the
+   end of the buffer), anchored at the front of [s] *)
+Definition match_pending (dd s : bytes) : option unit :=
+  match lb_len s with
+  | Some l => if starts_with dd (skipn l s) && pending_tail (skipn (l + length dd) s) then Some tt else None
+  | None => None
+  end.
+
+(* last_newline(max(0, len(buffer) - len(boundary) - 3)) *)
+Definition window_cut (b buf : bytes) : nat := last_newline_from (length buf - (length b + 3)) buf.
+
+(* the cut when no complete delimiter is in the buffer although "--boundary" occurs in it *)
+Definition pending_cut (b buf : bytes) : nat :=
+  match search (match_pending (dashes b)) buf 0 with
+  | Some (p, _) => p
+  | None => window_cut b buf
+  end.
+
+(* the repaired DATA state (planned repair 0030) *)
 Definition data_step (b buf : bytes) : data_result :=
+  if negb (has_sub (dashes b) buf) then
+    let cut := window_cut b buf in
+    More (firstn cut buf) (skipn cut buf)
+  else
+    match search_delim false (dashes b) buf with
+    | Some (s, e, closing) => EndPart (firstn s buf) (skipn e buf) closing
+    | None =>
+        let cut := pending_cut b buf in
+        More (firstn cut buf) (skipn cut buf)
+    end.
+
+(* the first, insufficient repair (0024): windowed search only while "--boundary" is absent *)
+Definition data_step_0024 (b buf : bytes) : data_result :=
   if negb (has_sub (dashes b) buf) then
     let cut := last_newline_from (length buf - (length b + 3)) buf in
     More (firstn cut buf) (skipn cut buf)
   else
-    match search_delim false (dashes b) buf 0 with
+    match search_delim false (dashes b) buf with
     | Some (s, e, closing) => EndPart (firstn s buf) (skipn e buf) closing
     | None =>
         let cut := last_newline_from 0 buf in
@@ -143,7 +196,7 @@ Definition data_step_orig (b buf : bytes) : data_result :=
     let cut := last_newline_from 0 buf in
     More (firstn cut buf) (skipn cut buf)
   else
-    match search_delim false (dashes b) buf 0 with
+    match search_delim false (dashes b) buf with
     | Some (s, e, closing) => EndPart (firstn s buf) (skipn e buf) closing
     | None =>
         let cut := last_newline_from 0 buf in
@@ -168,7 +221,12 @@ Fixpoint lstrip (sp : N -> bool) (s : bytes) : bytes :=
 
 Definition strip (sp : N -> bool) (s : bytes) : bytes := rev (lstrip sp (rev (lstrip sp s))).
 
-Definition lower_c (c : N) : N := if (N.leb 65 c && N.leb c 90)%bool then (c + 32)%N else c.
+(* str.lower() on Latin-1 text (code points above U+00FF are left alone: the cases keep
+   header and parameter names within Latin-1) *)
+Definition lower_c (c : N) : N :=
+  if (N.leb 65 c && N.leb c 90)%bool then (c + 32)%N
+  else if (N.leb 192 c && N.leb c 222 && negb (N.eqb c 215))%bool then (c + 32)%N
+  else c.
 Definition lower (s : bytes) : bytes := map lower_c s.
 
 (* strict UTF-8 decoding; None = UnicodeDecodeError *)
@@ -216,7 +274,7 @@ Fixpoint utf8_decode (fuel : nat) (s : bytes) : option bytes :=
 Definition safe_decode (utf8 : bool) (s : bytes) : bytes :=
   if utf8 then match utf8_decode (length s) s with Some t => t | None => s end else s.
 
-(* split on a predicate-free single separator: s.split(sep) *)
+(* s.partition(c): None when c does not occur *)
 Fixpoint split_at_first (c : N) (s : bytes) : option (bytes * bytes) :=
   match s with
   | [] => None
@@ -227,35 +285,47 @@ Fixpoint split_at_first (c : N) (s : bytes) : option (bytes * bytes) :=
                    end
   end.
 
-(* bytes.splitlines(): break at \r\n, \n, \r; no trailing empty line *)
+(* bytes.splitlines(): break at \r\n, \n, \r; no trailing empty line.  [cur] is the
+   current line, reversed *)
 Fixpoint splitlines_aux (s cur : bytes) : list bytes :=
   match s with
   | [] => match cur with [] => [] | _ => [rev cur] end
-  | 13%N :: 10%N :: r => rev cur :: splitlines_aux r []
-  | 13%N :: r => rev cur :: splitlines_aux r []
-  | 10%N :: r => rev cur :: splitlines_aux r []
-  | c :: r => splitlines_aux r (c :: cur)
+  | c :: r =>
+      if N.eqb c CR then
+        match r with
+        | y :: r' => if N.eqb y LF then rev cur :: splitlines_aux r' [] else rev cur :: splitlines_aux r []
+        | [] => [rev cur]
+        end
+      else if N.eqb c LF then rev cur :: splitlines_aux r []
+      else splitlines_aux r (c :: cur)
   end.
 Definition splitlines (s : bytes) : list bytes := splitlines_aux s [].
 
+Definition is_sptab (c : N) : bool := N.eqb c 32 || N.eqb c 9.
+
 (* HEADER_CONTINUATION_RE.sub(b" ", data): a line break followed by space or TAB becomes one space *)
-Fixpoint unfold_continuations (fuel : nat) (s : bytes) : bytes :=
-  match fuel with
-  | O => s
-  | S k =>
-      match s with
-      | [] => []
-      | c :: r =>
-          match lb_len s with
-          | Some l =>
-              match skipn l s with
-              | x :: r' => if N.eqb x 32 || N.eqb x 9 then 32%N :: unfold_continuations k r'
-                           else c :: unfold_continuations k r
-              | [] => c :: unfold_continuations k r
+Fixpoint unfold_continuations (s : bytes) : bytes :=
+  match s with
+  | [] => []
+  | c :: r =>
+      if N.eqb c CR then
+        match r with
+        | y :: r' =>
+            if N.eqb y LF then
+              match r' with
+              | z :: r'' => if is_sptab z then SP :: unfold_continuations r'' else c :: unfold_continuations r
+              | [] => c :: unfold_continuations r
               end
-          | None => c :: unfold_continuations k r
-          end
-      end
+            else if is_sptab y then SP :: unfold_continuations r'
+            else c :: unfold_continuations r
+        | [] => [c]
+        end
+      else if N.eqb c LF then
+        match r with
+        | y :: r' => if is_sptab y then SP :: unfold_continuations r' else c :: unfold_continuations r
+        | [] => [c]
+        end
+      else c :: unfold_continuations r
   end.
 
 (* ---------- Headers(list): lower-cased names, duplicates folded with ", " ---------- *)
@@ -274,33 +344,35 @@ Fixpoint hput (k v : bytes) (h : list header) : list header :=
   | (k', v') :: r => if bytes_eqb k' k then (k, v) :: r else (k', v') :: hput k v r
   end.
 
-Definition headers_of (items : list header) : list header :=
-  fold_left (fun st kv =>
-               let k := lower (fst kv) in
-               match hget k st with
-               | Some old => hput k (old ++ [44%N; 32%N] ++ snd kv) st
-               | None => hput k (snd kv) st
-               end) items [].
-
-(* _parse_headers; None = MalformedMultipart (a line without colon) *)
-Definition parse_headers (utf8 : bool) (block : bytes) : option (list header) :=
-  let lines := splitlines (unfold_continuations (length block) block) in
-  let step (acc : option (list header)) (line : bytes) :=
-    match acc with
-    | None => None
-    | Some hs =>
-        match strip is_bspace line with
-        | [] => Some hs
-        | l => match split_at_first 58 (safe_decode utf8 l) with
-               | Some (n, v) => Some (hs ++ [(strip is_uspace n, strip is_uspace v)])
-               | None => None
-               end
-        end
-    end in
-  match fold_left step lines (Some []) with
-  | Some hs => Some (headers_of hs)
-  | None => None
+Definition headers_add (st : list header) (kv : header) : list header :=
+  let k := lower (fst kv) in
+  match hget k st with
+  | Some old => hput k (old ++ [44%N; 32%N] ++ snd kv) st
+  | None => hput k (snd kv) st
   end.
+
+Definition headers_of (items : list header) : list header := fold_left headers_add items [].
+
+(* one line of _parse_headers; None = MalformedMultipart (a line without colon) *)
+Definition header_line (utf8 : bool) (acc : option (list header)) (line : bytes) : option (list header) :=
+  match acc with
+  | None => None
+  | Some hs =>
+      match strip is_bspace line with
+      | [] => Some hs
+      | l => match split_at_first COLON (safe_decode utf8 l) with
+             | Some (n, v) => Some (hs ++ [(strip is_uspace n, strip is_uspace v)])
+             | None => None
+             end
+      end
+  end.
+
+(* the (name, value) list of _parse_headers, before Headers() folds it *)
+Definition header_items (utf8 : bool) (block : bytes) : option (list header) :=
+  fold_left (header_line utf8) (splitlines (unfold_continuations block)) (Some []).
+
+Definition parse_headers (utf8 : bool) (block : bytes) : option (list header) :=
+  option_map headers_of (header_items utf8 block).
 
 (* ---------- parse_header (utils.py) ---------- *)
 
@@ -327,8 +399,8 @@ Fixpoint param_end (fuel : nat) (s : bytes) (e : option nat) : option nat :=
       match e with
       | Some n =>
           if Nat.ltb 0 n &&
-             Nat.odd (count_c 34 (firstn n s) - count_sub2 92 34 (firstn n s))
-          then param_end k s (find_from 59 s 0 (S n))
+             Nat.odd (count_c DQUOTE (firstn n s) - count_sub2 BSLASH DQUOTE (firstn n s))
+          then param_end k s (find_from SEMI s 0 (S n))
           else e
       | None => None
       end
@@ -339,13 +411,15 @@ Fixpoint parseparam (fuel : nat) (s : bytes) : list bytes :=
   | O => []
   | S k =>
       match s with
-      | 59%N :: s1 =>
-          let e := match param_end (length s1) s1 (find_from 59 s1 0 0) with
-                   | Some n => n
-                   | None => length s1
-                   end in
-          strip is_uspace (firstn e s1) :: parseparam k (skipn e s1)
-      | _ => []
+      | [] => []
+      | c :: s1 =>
+          if N.eqb c SEMI then
+            let e := match param_end (length s1) s1 (find_from SEMI s1 0 0) with
+                     | Some n => n
+                     | None => length s1
+                     end in
+            strip is_uspace (firstn e s1) :: parseparam k (skipn e s1)
+          else []
       end
   end.
 
@@ -357,25 +431,29 @@ Fixpoint replace2 (a b : N) (by_ : bytes) (s : bytes) : bytes :=   (* s.replace(
 
 Definition unquote_value (v : bytes) : bytes :=
   match v with
-  | 34%N :: r =>
-      match rev r with
-      | 34%N :: mid => replace2 92 34 [34%N] (replace2 92 92 [92%N] (rev mid))
-      | _ => v
-      end
-  | _ => v
+  | q :: r =>
+      if N.eqb q DQUOTE then
+        match rev r with
+        | q' :: mid => if N.eqb q' DQUOTE
+                       then replace2 BSLASH DQUOTE [DQUOTE] (replace2 BSLASH BSLASH [BSLASH] (rev mid))
+                       else v
+        | [] => v
+        end
+      else v
+  | [] => v
+  end.
+
+Definition param_add (d : list header) (p : bytes) : list header :=
+  match split_at_first EQUALS p with
+  | Some (n, v) => hput (lower (strip is_uspace n)) (unquote_value (strip is_uspace v)) d
+  | None => d
   end.
 
 (* parse_header(line) = (key, options); later duplicates of an option win *)
 Definition parse_header (line : bytes) : bytes * list header :=
-  match parseparam (S (S (length line))) (59%N :: line) with
+  match parseparam (S (S (length line))) (SEMI :: line) with
   | [] => ([], [])
-  | key :: ps =>
-      (key,
-       fold_left (fun d p =>
-                    match split_at_first 61 p with
-                    | Some (n, v) => hput (lower (strip is_uspace n)) (unquote_value (strip is_uspace v)) d
-                    | None => d
-                    end) ps [])
+  | key :: ps => (key, fold_left param_add ps [])
   end.
 
 (* ---------- the decoder ---------- *)
@@ -393,6 +471,32 @@ Inductive event :=
 | ENeed
 | EMalformed.       (* MalformedMultipart (400) *)
 
+Definition k_content_disposition : bytes := Eval vm_compute in lit "content-disposition".
+Definition k_name : bytes := Eval vm_compute in lit "name".
+Definition k_filename : bytes := Eval vm_compute in lit "filename".
+
+(* the PART state once the blank line is found: header block -> event *)
+Inductive part_result :=
+| PBadHeader            (* a header line without colon: raised before the buffer is touched *)
+| PNoDisposition        (* raised after the block has been removed from the buffer *)
+| PEvent (ev : event).
+
+Definition parse_part (utf8 : bool) (block : bytes) : part_result :=
+  match parse_headers utf8 block with
+  | None => PBadHeader
+  | Some hs =>
+      match hget k_content_disposition hs with
+      | None => PNoDisposition
+      | Some cd =>
+          let extra := snd (parse_header cd) in
+          let name := hget k_name extra in
+          PEvent (match hget k_filename extra with
+                  | Some fn => EFile name fn hs
+                  | None => EField name hs
+                  end)
+      end
+  end.
+
 Definition new_decoder : decoder := {| d_buf := []; d_state := PREAMBLE; d_complete := false |}.
 
 Definition receive (d : decoder) (chunk : option bytes) : decoder :=
@@ -409,27 +513,18 @@ Definition next_event (b : bytes) (utf8 : bool) (d : decoder) : event * decoder 
   let '(ev, d') :=
     match d_state d with
     | PREAMBLE =>
-        match search_delim true (dashes b) buf 0 with
+        match search_delim true (dashes b) buf with
         | Some (s, e, closing) =>
             (EPreamble (firstn s buf), with_buf d (skipn e buf) (if closing then EPILOGUE else PART))
         | None => (ENeed, d)
         end
     | PART =>
-        match search_blank buf 0 with
+        match search_blank buf with
         | Some (s, e) =>
-            match parse_headers utf8 (firstn s buf) with
-            | None => (EMalformed, d)
-            | Some hs =>
-                match hget (lit "content-disposition") hs with
-                | None => (EMalformed, with_buf d (skipn e buf) PART)
-                | Some cd =>
-                    let extra := snd (parse_header cd) in
-                    let name := hget (lit "name") extra in
-                    (match hget (lit "filename") extra with
-                     | Some fn => EFile name fn hs
-                     | None => EField name hs
-                     end, with_buf d (skipn e buf) DATA)
-                end
+            match parse_part utf8 (firstn s buf) with
+            | PBadHeader => (EMalformed, d)
+            | PNoDisposition => (EMalformed, with_buf d (skipn e buf) PART)
+            | PEvent ev => (ev, with_buf d (skipn e buf) DATA)
             end
         | None => (ENeed, d)
         end
@@ -464,20 +559,51 @@ Fixpoint drain (fuel : nat) (b : bytes) (utf8 : bool) (d : decoder) : list event
 
 Definition drain_fuel (d : decoder) : nat := 2 * length (d_buf d) + 4.
 
-(* event level: feed the chunks, then end-of-input; per chunk: the events and the buffer length *)
+(* receive_data(chunk) followed by the caller's event loop *)
+Definition step_chunk (b : bytes) (utf8 : bool) (d : decoder) (chunk : option bytes) : list event * decoder :=
+  let d1 := receive d chunk in drain (drain_fuel d1) b utf8 d1.
+
+Definition is_malformed (e : event) : bool := match e with EMalformed => true | _ => false end.
+
+(* event level: feed the chunks, then end-of-input; per chunk: the events and the decoder afterwards *)
 Fixpoint run_chunks (b : bytes) (utf8 : bool) (d : decoder) (chunks : list bytes)
-  : list (list event * nat) :=
+  : list (list event * decoder) :=
   match chunks with
-  | [] =>
-      let d1 := receive d None in
-      let '(evs, d2) := drain (drain_fuel d1) b utf8 d1 in
-      [(evs, length (d_buf d2))]
+  | [] => [step_chunk b utf8 d None]
   | c :: r =>
-      let d1 := receive d (Some c) in
-      let '(evs, d2) := drain (drain_fuel d1) b utf8 d1 in
-      if existsb (fun e => match e with EMalformed => true | _ => false end) evs
-      then [(evs, length (d_buf d2))]
-      else (evs, length (d_buf d2)) :: run_chunks b utf8 d2 r
+      let '(evs, d2) := step_chunk b utf8 d (Some c) in
+      if existsb is_malformed evs then [(evs, d2)]
+      else (evs, d2) :: run_chunks b utf8 d2 r
+  end.
+
+Definition all_events (tr : list (list event * decoder)) : list event := flat_map fst tr.
+
+(* the parts as the next layer sees them: the data events of one part concatenated *)
+Inductive pitem :=
+| PDone (hev : event) (content : bytes)      (* header event, all the data, terminated by more_data=False *)
+| POpen (hev : event) (content : bytes)      (* a part that was not terminated *)
+| PStray                                     (* a data event outside a part *)
+| PEpi
+| PMal.
+
+Fixpoint collect (evs : list event) (cur : option (event * bytes)) : list pitem :=
+  match evs with
+  | [] => match cur with Some (h, d) => [POpen h d] | None => [] end
+  | ev :: r =>
+      let flush := match cur with Some (h, d) => [POpen h d] | None => [] end in
+      match ev with
+      | EField _ _ | EFile _ _ _ => flush ++ collect r (Some (ev, []))
+      | EData d more =>
+          match cur with
+          | Some (h, acc) =>
+              if more then collect r (Some (h, acc ++ d))
+              else PDone h (acc ++ d) :: collect r None
+          | None => PStray :: collect r None
+          end
+      | EPreamble _ | ENeed => collect r cur
+      | EEpilogue _ => flush ++ PEpi :: collect r None
+      | EMalformed => flush ++ PMal :: collect r None
+      end
   end.
 
 (* ---------- the stream helpers ---------- *)
@@ -503,7 +629,7 @@ Record hstate := {
 Definition h_init : hstate :=
   {| h_name := Some []; h_data := []; h_file := None; h_parts := 0; h_mem := 0; h_items := [] |}.
 
-(* one event in the helper's loop; None = the exception (413 / 400) *)
+(* one event in the helper's loop; inr = the exception (413 / 400) *)
 Definition helper_event (utf8 : bool) (max_parts : nat) (max_mem : option nat)
   (h : hstate) (ev : event) : hstate + houtcome :=
   match ev with
@@ -564,8 +690,7 @@ Fixpoint parse_stream_aux (b : bytes) (utf8 : bool) (max_parts : nat) (max_mem :
   match chunks with
   | [] => HItems (h_items h)
   | c :: r =>
-      let d1 := receive d (Some c) in
-      let '(evs, d2) := drain (drain_fuel d1) b utf8 d1 in
+      let '(evs, d2) := step_chunk b utf8 d (Some c) in
       match helper_events utf8 max_parts max_mem h evs with
       | inl h' => parse_stream_aux b utf8 max_parts max_mem d2 h' r
       | inr o => o
